@@ -17,7 +17,9 @@
 EXTENDS Elements
 
 Ops == {"str", "pairs", "sequence", "dot_bracket", "fcfs", "all", "elements",
-        "without_pseudoknots", "without_isolated"}
+        "without_pseudoknots", "without_isolated", "convert_none"}
+\* "convert_none" = convert_to_dot_bracket(None): the public conversion asked WITHOUT a solver; it returns the
+\* first-come-first-served notation and, like every query, leaves the object (and its cached answers) alone
 
 None == <<>>          \* optional values: <<>> = absent, <<v>> = present
 Some(v) == <<v>>
@@ -89,6 +91,7 @@ Do(st, op, o, optdb, alias) ==
     [] op = "all" ->
          LET s1 == IF st.objs[o].all # None THEN st ELSE [st EXCEPT !.objs[o].all = Some(AllTexts(M(st, o), n))] IN
          [st |-> s1, ans |-> s1.objs[o].all[1], new |-> 0]
+    [] op = "convert_none" -> [st |-> st, ans |-> FcfsText(M(st, o), n), new |-> 0]
     [] op = "elements" ->
          LET s1 == WithEl(st, o, optdb) IN [st |-> s1, ans |-> s1.objs[o].el[1], new |-> 0]
     [] op = "without_pseudoknots" ->
@@ -121,6 +124,7 @@ FreshAnswerOK(op, col0, ans, optdb) ==
     [] op = "sequence" -> ans = n
     [] op = "dot_bracket" -> IsOptimalText(ans, m, n)
     [] op = "fcfs"     -> ans = FcfsText(m, n)
+    [] op = "convert_none" -> ans = FcfsText(m, n)
     [] op = "all"      -> ans = AllTexts(m, n)
     [] op = "elements" -> ans = ElementsOf(m)
     [] op = "without_pseudoknots" -> ans = ColOf(RoundPairs(optdb), n)
